@@ -613,6 +613,7 @@ func main() {
 	nOSM, nElem, nDoc, nBad, nChange, nDirect = sc(nOSM), sc(nElem), sc(nDoc), sc(nBad), sc(nChange), sc(nDirect)
 
 	viaCtr := 0
+	onlyDefault := false
 	addRound := func(tag, sel int, v interface{}, class string, nElems int) {
 		var base *obs
 		mvia, uvia := viaCtr%len(marshalVias), (viaCtr/len(marshalVias))%len(unmarshalVias)
@@ -622,6 +623,9 @@ func main() {
 		before := &wire.Case{}
 		putVal(before, reflect.ValueOf(v).Elem())
 		for cfg := range configs {
+			if onlyDefault && cfg > 0 {
+				continue
+			}
 			o := observeVia(cfg, v, mvia, uvia)
 			s := sel
 			if tag != 2 {
@@ -721,6 +725,44 @@ func main() {
 			g := &gen{rng: rng, p: []float64{0, 0.3, 0.7, 1}[i%4], annot: true}
 			addRound(2, k, g.element(k), "elem/"+kinds[k], 0)
 			w.Count(fmt.Sprintf("density:%.1f", g.p))
+		}
+	}
+	// 1a. nested records, one optional part at a time: for every record type reachable inside an
+	//     element (members, their way nodes, way nodes, tags, updates, bounds, discussion and its
+	//     comments, note comments, the sub-objects of a user) a value in which exactly ONE field of
+	//     ONE such record is set and everything else is zero; then every PAIR of fields of the
+	//     record, followed by an all-zero sibling record (default configuration only in quick).
+	for k := range kinds {
+		root := reflect.TypeOf(newKind(k)).Elem()
+		for _, st := range recordSites(root, nil) {
+			nf := st.t.NumField()
+			for i := 0; i < nf; i++ {
+				if !settable(st.t.Field(i)) {
+					continue
+				}
+				g := &gen{rng: rng, p: 1, annot: true}
+				e := newKind(k)
+				rec := materialize(reflect.ValueOf(e).Elem(), st.path, 1)
+				g.fillNonZero(rec.Field(i))
+				addRound(2, k, e, "nested-one-field/"+kinds[k], 0)
+				w.Count("nested:" + kinds[k] + "." + st.name + "." + st.t.Field(i).Name)
+				for j := i + 1; j < nf; j++ {
+					if !settable(st.t.Field(j)) {
+						continue
+					}
+					e2 := newKind(k)
+					n := 2
+					if st.t == reflect.TypeOf(osm.Tag{}) {
+						n = 1 // a second all-zero tag would repeat the empty key
+					}
+					rec2 := materialize(reflect.ValueOf(e2).Elem(), st.path, n)
+					g.fillNonZero(rec2.Field(i))
+					g.fillNonZero(rec2.Field(j))
+					onlyDefault = a.Tier != "thorough"
+					addRound(2, k, e2, "nested-two-fields/"+kinds[k], 0)
+					onlyDefault = false
+				}
+			}
 		}
 	}
 	// 1b. outside the round-trip domain: tags with duplicate keys (osm.Tags is a slice; osmjson
@@ -1201,4 +1243,91 @@ func bigCase(cfg, n int) *wire.Case {
 	desc["own_output_decoded"] = map[string]interface{}{"error": errText(uerr), "summary": osmSummary(back)}
 	c.Desc = desc
 	return c
+}
+
+// ---- nested record sweeps ----
+type recordSite struct {
+	path []int // field indices from the element down to the record (through slices / pointers)
+	t    reflect.Type
+	name string
+}
+
+func leafType(t reflect.Type) bool {
+	return t == timeType || t == dateType || strings.HasPrefix(t.Name(), "xmlNameJSONType") ||
+		(t.PkgPath() == "encoding/xml" && t.Name() == "Name")
+}
+
+func settable(f reflect.StructField) bool {
+	return f.PkgPath == "" && !strings.HasPrefix(f.Type.Name(), "xmlNameJSONType") &&
+		!(f.Type.PkgPath() == "encoding/xml" && f.Type.Name() == "Name") && f.Type != changePtrType
+}
+
+// recordSites lists every struct type nested inside t (struct fields, pointers to structs,
+// slices of structs or of pointers to structs), with the path leading to it.
+func recordSites(t reflect.Type, path []int) []recordSite {
+	var out []recordSite
+	for i := 0; i < t.NumField(); i++ {
+		f := t.Field(i)
+		if f.PkgPath != "" || f.Type == changePtrType {
+			continue
+		}
+		ft := f.Type
+		for ft.Kind() == reflect.Ptr || ft.Kind() == reflect.Slice {
+			ft = ft.Elem()
+		}
+		if ft.Kind() != reflect.Struct || leafType(ft) {
+			continue
+		}
+		p := append(append([]int(nil), path...), i)
+		out = append(out, recordSite{p, ft, f.Name})
+		for _, s := range recordSites(ft, p) {
+			s.name = f.Name + "." + s.name
+			out = append(out, s)
+		}
+	}
+	return out
+}
+
+// materialize creates the containers along path (slices get n records, the first one is
+// returned) and returns the addressable record.
+func materialize(v reflect.Value, path []int, n int) reflect.Value {
+	for _, idx := range path {
+		f := v.Field(idx)
+		for {
+			switch f.Kind() {
+			case reflect.Ptr:
+				if f.IsNil() {
+					f.Set(reflect.New(f.Type().Elem()))
+				}
+				f = f.Elem()
+				continue
+			case reflect.Slice:
+				if f.Len() == 0 {
+					sl := reflect.MakeSlice(f.Type(), n, n)
+					for i := 0; i < n; i++ {
+						if sl.Index(i).Kind() == reflect.Ptr {
+							sl.Index(i).Set(reflect.New(f.Type().Elem().Elem()))
+						}
+					}
+					f.Set(sl)
+				}
+				f = f.Index(0)
+				continue
+			}
+			break
+		}
+		v = f
+	}
+	return v
+}
+
+// fillNonZero sets v to a random non-zero value of its type.
+func (g *gen) fillNonZero(v reflect.Value) {
+	for i := 0; i < 50; i++ {
+		g.fill(v)
+		if !v.IsZero() {
+			return
+		}
+	}
+	panic("c05 harness: no non-zero value for " + v.Type().String())
 }
